@@ -46,6 +46,15 @@ func (h *Handle) OnAPS(self any) error {
 }
 func (h *Handle) OnRun(self any) error { return h.C.Callback("run", h.ID, self) }
 
+// OnProc is the callback of a generated component that is itself an observing
+// post-processor: it logs (and may fail through the fault plan) and returns the component.
+func (h *Handle) OnProc(kind string, component any, name string) (any, error) {
+	if err := h.C.Callback(kind, h.ID+"@"+name, component); err != nil {
+		return nil, err
+	}
+	return component, nil
+}
+
 // OnClose logs entry, parks until the scheduler releases this closer, then returns the
 // (possibly injected) result.
 func (h *Handle) OnClose(self any) error {
